@@ -46,6 +46,11 @@ CLAIMS = {
             "are used before anything mutates the probe sets, StripedSet::internal_resize moves every element of every old bucket once into "
             "bucket(hash(element)) of the new table and frees the old table afterwards, every bucket adapter/policy inserts the moved item "
             "exactly once. SplitList/Feldman growth is not covered here.", PATHS, "DESIGN.md §4 C17"),
+    "C21": ("other", "Path rules over the three free lists: tag = expected.tag+1 recomputed per attempt and correct linking (TaggedFreeList); "
+            "successor read only under a successful reference increment on a non-zero count, every increment released exactly once (-2 on win, -1 "
+            "on loss with re-add of a last-reference node), put adds only at count 0, publication after initialisation (FreeList); cache cells "
+            "change only by CAS null<->node and a node is never both cached and listed (CachedFreeList). The bag property under interleavings is "
+            "not decided.", PATHS, "DESIGN.md §4 C21"),
     "C22": ("other", "Path rules over the lock primitives: spin_lock (exchange/acquire, lock returns only after a successful try_lock, release "
             "store), reentrant_spin_lock (re-entrance only for the owner, ownership recorded after acquisition, last unlock clears owner then "
             "releases, nested unlock only decrements), pool_monitor (lock pointer written only under the spin bit, +-reference arithmetic, "
